@@ -15,7 +15,13 @@ use feos_core::parameter::{
 use ndarray::Array2;
 use std::sync::Arc;
 
-pub const PARAMS: &str = "/repo/parameters";
+/// root of the feos checkout the harness was built against (`FV_REPO` overrides it for scratch copies)
+pub fn repo() -> String {
+    std::env::var("FV_REPO").unwrap_or_else(|_| "/repo".to_string())
+}
+pub fn params() -> String {
+    format!("{}/parameters", repo())
+}
 
 #[derive(Clone)]
 pub struct Config {
@@ -35,8 +41,8 @@ fn cfg(name: &str, model: ResidualModel, ncomp: usize, t_scale: f64, core: bool)
 pub fn pcsaft_params(names: &[&str], file: &str, binary: Option<&str>) -> PcSaftParameters {
     PcSaftParameters::from_json(
         names.to_vec(),
-        format!("{PARAMS}/pcsaft/{file}"),
-        binary.map(|b| format!("{PARAMS}/pcsaft/{b}")),
+        format!("{}/pcsaft/{file}", params()),
+        binary.map(|b| format!("{}/pcsaft/{b}", params())),
         IdentifierOption::Name,
     )
     .unwrap()
@@ -44,10 +50,10 @@ pub fn pcsaft_params(names: &[&str], file: &str, binary: Option<&str>) -> PcSaft
 
 pub fn pcsaft_multi(input: &[(&[&str], &str)], binary: Option<&str>) -> PcSaftParameters {
     let inp: Vec<(Vec<&str>, String)> =
-        input.iter().map(|(n, f)| (n.to_vec(), format!("{PARAMS}/pcsaft/{f}"))).collect();
+        input.iter().map(|(n, f)| (n.to_vec(), format!("{}/pcsaft/{f}", params()))).collect();
     PcSaftParameters::from_multiple_json(
         &inp,
-        binary.map(|b| format!("{PARAMS}/pcsaft/{b}")),
+        binary.map(|b| format!("{}/pcsaft/{b}", params())),
         IdentifierOption::Name,
     )
     .unwrap()
@@ -124,8 +130,8 @@ pub fn pets(n: usize) -> Pets {
 pub fn gc_pcsaft(names: &[&str]) -> GcPcSaft {
     let p = GcPcSaftEosParameters::from_json_segments(
         names,
-        format!("{PARAMS}/pcsaft/gc_substances.json"),
-        format!("{PARAMS}/pcsaft/sauer2014_hetero.json"),
+        format!("{}/pcsaft/gc_substances.json", params()),
+        format!("{}/pcsaft/sauer2014_hetero.json", params()),
         None,
         IdentifierOption::Name,
     )
@@ -136,7 +142,7 @@ pub fn gc_pcsaft(names: &[&str]) -> GcPcSaft {
 pub fn saftvrmie(names: &[&str]) -> SaftVRMie {
     let p = SaftVRMieParameters::from_json(
         names.to_vec(),
-        format!("{PARAMS}/saftvrmie/lafitte2013.json"),
+        format!("{}/saftvrmie/lafitte2013.json", params()),
         None,
         IdentifierOption::Name,
     )
@@ -147,8 +153,8 @@ pub fn saftvrmie(names: &[&str]) -> SaftVRMie {
 pub fn saftvrqmie(names: &[&str], file: &str, binary: Option<&str>) -> SaftVRQMie {
     let p = SaftVRQMieParameters::from_json(
         names.to_vec(),
-        format!("{PARAMS}/saftvrqmie/{file}"),
-        binary.map(|b| format!("{PARAMS}/saftvrqmie/{b}")),
+        format!("{}/saftvrqmie/{file}", params()),
+        binary.map(|b| format!("{}/saftvrqmie/{b}", params())),
         IdentifierOption::Name,
     )
     .unwrap();
@@ -176,8 +182,8 @@ pub fn uvtheory(n: usize, pert: Perturbation) -> UVTheory {
 pub fn epcsaft(names: &[&str], binary: bool) -> ElectrolytePcSaft {
     let p = ElectrolytePcSaftParameters::from_json(
         names.to_vec(),
-        format!("{PARAMS}/epcsaft/held2014_w_permittivity_added.json"),
-        if binary { Some(format!("{PARAMS}/epcsaft/held2014_binary.json")) } else { None },
+        format!("{}/epcsaft/held2014_w_permittivity_added.json", params()),
+        if binary { Some(format!("{}/epcsaft/held2014_binary.json", params())) } else { None },
         IdentifierOption::Name,
     )
     .unwrap();
